@@ -4,9 +4,10 @@
 
    A [variant] selects the code before/after each repair made for C15, so that the
    pre-repair behaviour stays available for the `_refuted` theorems:
-     v_nul  : NUL is written \00                     (fix: escapeRDNAttrValue, F37)
-     v_plus : the ATVs of one RDN are joined by '+'  (fix: FromRDNSequence, F38)
+     v_nul  : NUL is written \00                     (fix: escapeRDNAttrValue, F31c)
+     v_plus : the ATVs of one RDN are joined by '+'  (fix: FromRDNSequence, F31d)
      v_hex  : non-string values are written #<hex DER> instead of fmt's %!s(...) (F31b)
+   (F31 changed the regenerated table, F31e/F31f the decoding step that precedes this model.)
    [current] is the code as it is now. *)
 From WI Require Import Lib.Base Lib.Info Lib.Utf8.
 From WI Require gen.X500Names.
@@ -76,7 +77,8 @@ Inductive govalue : Type :=
 | GStr (s : bytes)                       (* string *)
 | GInt (z : Z)                           (* int64 (ASN.1 INTEGER) *)
 | GNil                                   (* nil: a type encoding/asn1 does not decode *)
-| GOther (printed marshal : bytes).      (* any other Go value: what fmt's %s and asn1.Marshal
+| GOther (printed marshal : bytes).      (* any other Go value (asn1.RawValue: marshal = its DER;
+                                            []byte, OID, time ...): what fmt's %s and asn1.Marshal
                                             give for it, as recorded by the harness *)
 
 (* fmt.Sprintf("%s", v) *)
@@ -126,8 +128,10 @@ Definition render_dn_gen (var : variant) (t : name_table) (rdns : list (list atv
     join [44] (flat_map (map (render_atv var t)) (rev rdns)).
 Definition render_dn : list (list atv) -> bytes := render_dn_gen current x500_names.
 
-(* ---------- FromRawDN (x500.go:13-20): the ASN.1 decoding of the name is the library's;
-   [parsed] is what it returned (None: error or trailing bytes) ---------- *)
+(* ---------- FromRawDN: the ASN.1 decoding of the name (parseRawDN: encoding/asn1 into
+   RDNs whose values are Go strings for the six string types and asn1.RawValue, i.e. the DER
+   itself, for anything else) is the library's; [parsed] is what it returned (None: error,
+   trailing bytes or an ill-formed string -> hex of the whole input) ---------- *)
 Definition from_raw_dn_gen (var : variant) (t : name_table) (dn : bytes) (parsed : option (list (list atv))) : bytes :=
   match parsed with
   | Some rdns => render_dn_gen var t rdns
